@@ -299,6 +299,16 @@ func child(batch int, seed int64, tier, outDir string) {
 		valid[f+"|nullpayload"] = lib.MustCoreSign(lib.SignSpec{Format: f, Payload: []byte(`null`), Signer: good})
 		valid[f+"|weirdann"] = lib.MustCoreSign(lib.SignSpec{Format: f, Payload: []byte(`{"targetArtifact":{"mediaType":"m","digest":"sha256:zz","size":-1,"annotations":{"a":null}}}`), Signer: good})
 	}
+	// envelopes carrying a VALID RFC 3161 countersignature, so that the timestamping branch is walked to its end
+	tsaRoot := lib.Mint(nil, lib.CertSpec{CN: "c12-tsa-root", Kind: "ca", KeyIdx: 6})
+	tsaLeaf := lib.Mint(tsaRoot, lib.CertSpec{CN: "c12-tsa", Kind: "tsa", KeyIdx: 2})
+	stamped := map[string][]byte{}
+	for _, f := range lib.Formats {
+		raw := valid[f]
+		sv, alg := lib.SigValue(f, raw)
+		tok := (&lib.TSA{Key: tsaLeaf.Key, Chain: tsaLeaf.Chain()}).Token(lib.TokenSpec{Message: sv, Hash: alg.Hash(), GenTime: time.Now().Add(-time.Hour), AccuracyS: 1})
+		stamped[f] = lib.AttachToken(f, raw, tok)
+	}
 	validKeys := make([]string, 0, len(valid))
 	for k := range valid {
 		validKeys = append(validKeys, k)
@@ -667,6 +677,47 @@ func child(batch int, seed int64, tier, outDir string) {
 				ps.Sign(ctx, d, notation.SignerSignOptions{SignatureMediaType: f})
 				ps.SignBlob(ctx, func(alg digest.Algorithm) (ocispec.Descriptor, error) { return blobDesc, nil }, notation.SignerSignOptions{SignatureMediaType: f})
 				ps.PluginAnnotations()
+			})
+		case ep == 18 && i%3 == 1: // every way to configure the revocation validators x constructors, with a countersigned envelope
+			f := lib.Formats[rng.Intn(2)]
+			in := stamped[f]
+			if rng.Intn(3) == 0 {
+				in = mutateBytes(rng, in)
+			}
+			variant, ctor := rng.Intn(6), rng.Intn(3)
+			level := []string{"strict", "permissive", "audit"}[rng.Intn(3)]
+			run("revocation validator configurations", fmt.Sprintf("%s variant=%d constructor=%d %s", id, variant, ctor, level), in, func() {
+				opts := verifier.VerifierOptions{}
+				switch variant {
+				case 0:
+					opts.RevocationClient = lib.OKRevLegacy{}
+				case 1:
+					opts.RevocationCodeSigningValidator = lib.OKRev{}
+				case 2:
+					opts.RevocationTimestampingValidator = lib.OKRev{}
+				case 3:
+					opts.RevocationClient, opts.RevocationTimestampingValidator = lib.OKRevLegacy{}, lib.OKRev{}
+				case 4:
+					opts.RevocationClient, opts.RevocationCodeSigningValidator = lib.OKRevLegacy{}, lib.OKRev{}
+				}
+				doc := lib.OCIPolicy(trustpolicy.SignatureVerification{VerificationLevel: level, VerifyTimestamp: []trustpolicy.TimestampOption{"", "always", "afterCertExpiry"}[rng.Intn(3)]}, []string{"ca:x", "tsa:t"}, []string{"*"})
+				mts := lib.NewMemTS().Put("ca:x", good.Root().Cert).Put("tsa:t", tsaRoot.Cert)
+				var v notation.Verifier
+				var err error
+				switch ctor {
+				case 0:
+					opts.OCITrustPolicy = doc
+					v, err = verifier.NewVerifierWithOptions(mts, opts)
+				case 1:
+					v, err = verifier.NewWithOptions(doc, mts, nil, opts)
+				default:
+					v, err = verifier.New(doc, mts, nil)
+				}
+				if err != nil || v == nil {
+					return
+				}
+				out, verr := v.Verify(ctx, desc, in, notation.VerifierVerifyOptions{ArtifactReference: "r.io/a@" + desc.Digest.String(), SignatureMediaType: f})
+				checkPair("revocation validator configurations", id, out, verr, true, in)
 			})
 		case ep == 18 && i%3 == 0: // the real process runner with hostile plugin stdout / stderr (scripted worker as plugin executable)
 			workerBin := filepath.Join(os.Getenv("VERIF_BIN"), "worker")
